@@ -17,6 +17,8 @@ class Target(object):
         self.ident = bytes(ident) if ident is not None else bytes(36)
         self.blocks = {}           # lba -> bytes (absent: zeros)
         self.log = []              # CDBs received
+        self.ua = []               # pending unit attention conditions (sense bytes): SAM-5 5.14 — the next command other than INQUIRY /
+        self.ua_log = []           # REPORT LUNS / REQUEST SENSE is terminated with CHECK CONDITION and NOT performed; one condition per command
 
     def block(self, a):
         return self.blocks.get(a, bytes(self.bs))
@@ -85,10 +87,23 @@ class Target(object):
         return None
 
     # the hooks of the substituted bindings
+    def take_ua(self, cdb):
+        if self.ua and bytes(cdb)[:1] not in (b"\x12", b"\xa0", b"\x03"):
+            self.log.append(bytes(cdb))
+            self.ua_log.append(len(self.log) - 1)
+            return self.ua.pop(0)
+        return None
+
     def sgio_device(self, cdb, dataout, datain):
+        u = self.take_ua(cdb)
+        if u is not None:
+            return ("cc", u)
         r = self.execute(cdb, dataout)
         return ("cc", ILLEGAL_REQUEST) if r is None else ("fill", r)
 
     def iscsi_device(self, cdb, dataout, datain):
+        u = self.take_ua(cdb)
+        if u is not None:
+            return (2, u, None)
         r = self.execute(cdb, dataout)
         return (2, ILLEGAL_REQUEST, None) if r is None else (0, None, r)
